@@ -294,9 +294,15 @@ def build_type0(spec, reg, meta=None):
     if t == 'td':
         key = ('td', spec['id'])
         if key not in reg.by_id:
-            ann = {k: build_type(ft, reg) for k, ft in spec['req']}
-            ann.update({k: T.NotRequired[build_type(ft, reg)] for k, ft in spec['opt']})
-            cls = T.TypedDict(spec['name'], ann)
+            if spec.get('total') is False:
+                # the same key sets spelled the other way round: total=False with Required[...] on the required keys
+                ann = {k: T.Required[build_type(ft, reg)] for k, ft in spec['req']}
+                ann.update({k: build_type(ft, reg) for k, ft in spec['opt']})
+                cls = T.TypedDict(spec['name'], ann, total=False)
+            else:
+                ann = {k: build_type(ft, reg) for k, ft in spec['req']}
+                ann.update({k: T.NotRequired[build_type(ft, reg)] for k, ft in spec['opt']})
+                cls = T.TypedDict(spec['name'], ann)
             reg.by_id[key] = cls
             reg.info[cls] = {'kind': 'td', 'id': spec['id'], 'spec': spec}
         return reg.by_id[key]
